@@ -473,7 +473,11 @@ def build_rank(case, r: int) -> RankBuild:
                 ary = apply_tags(ary, node["tags"])
         env.append(ary)
     outs = {k: env[i] for k, i in spec["outputs"]}
-    return RankBuild(r, env, pt.make_dict_of_named_arrays(outs), inputs)
+    # structurally equal nodes built twice are merged first: mappers refuse
+    # ("cache collision") graphs with duplicates - the documented precondition
+    # every property of this framework works under
+    g = pt.transform.deduplicate(pt.make_dict_of_named_arrays(outs))
+    return RankBuild(r, env, g, inputs)
 
 
 def build_case(case) -> list[RankBuild]:
